@@ -280,4 +280,57 @@ theorem f64FixedSigned_abs_nonneg (x : Nat) : 0 ≤ f64FixedSigned (f64Abs x) :=
   unfold f64FixedSigned f64Abs
   rw [hs]; simp
 
+/-- below 2^53 the conversion `n · 2^-k -> binary64` is exact: the result, read as a multiple of 2^-1074, is `n · 2^(1074-k)` -/
+theorem natFixedToF64_exact (k n : Nat) (hn : 0 < n) (hs : n < P53) (hk : k ≤ 990) :
+    f64Scaled (natFixedToF64 k n) = n * 2 ^ (1074 - k) := by
+  have hn0 : n ≠ 0 := by omega
+  have h1 := Nat.log2_self_le hn0
+  have h2 := @Nat.lt_log2_self n
+  -- bit length at most 53
+  have hl : Nat.log2 n + 1 ≤ 53 := by
+    rcases Nat.lt_or_ge (Nat.log2 n) 53 with h | h
+    · omega
+    · exfalso
+      have : 2 ^ 53 ≤ 2 ^ Nat.log2 n := Nat.pow_le_pow_right (by decide) h
+      unfold P53 at hs
+      omega
+  unfold natFixedToF64 bitLen
+  simp only [hn0, if_false]
+  rw [if_pos hl]
+  generalize hL : Nat.log2 n = L at *
+  -- mantissa field m' = n * 2^(52 - L) - 2^52 with 2^52 ≤ n * 2^(52-L) < 2^53
+  have e53 : 53 - (L + 1) = 52 - L := by omega
+  rw [e53]
+  have hp : 2 ^ L * 2 ^ (52 - L) = P52 := by
+    rw [← Nat.pow_add]; unfold P52
+    have : L + (52 - L) = 52 := by omega
+    rw [this]
+  have lo : P52 ≤ n * 2 ^ (52 - L) := by
+    rw [← hp]; exact Nat.mul_le_mul_right _ h1
+  have hi : n * 2 ^ (52 - L) < 2 * P52 := by
+    have : n * 2 ^ (52 - L) < 2 ^ (L + 1) * 2 ^ (52 - L) := Nat.mul_lt_mul_of_pos_right h2 (Nat.two_pow_pos _)
+    rw [Nat.pow_succ, Nat.mul_assoc, Nat.mul_comm 2, ← Nat.mul_assoc, hp] at this
+    omega
+  unfold f64Scaled
+  simp only
+  generalize hM : n * 2 ^ (52 - L) = M at *
+  have hq : ((L + 1 + 1022 - k) * P52 + (M - P52)) / P52 = L + 1 + 1022 - k := by
+    rw [Nat.mul_comm, Nat.mul_add_div (by unfold P52; decide)]
+    have : (M - P52) / P52 = 0 := Nat.div_eq_of_lt (by omega)
+    rw [this]; omega
+  have hr : ((L + 1 + 1022 - k) * P52 + (M - P52)) % P52 = M - P52 := by
+    rw [Nat.mul_comm, Nat.mul_add_mod]
+    exact Nat.mod_eq_of_lt (by omega)
+  rw [hq, hr]
+  have hne : L + 1 + 1022 - k ≠ 0 := by omega
+  simp only [hne, if_false]
+  have : M - P52 + P52 = M := by omega
+  rw [this, ← hM]
+  have he : L + 1 + 1022 - k - 1 = (1074 - k) - (52 - L) := by omega
+  have hpow : 2 ^ (52 - L) * 2 ^ ((1074 - k) - (52 - L)) = 2 ^ (1074 - k) := by
+    rw [← Nat.pow_add]
+    have : 52 - L + (1074 - k - (52 - L)) = 1074 - k := by omega
+    rw [this]
+  rw [he, Nat.mul_assoc, hpow]
+
 end Statime
